@@ -139,6 +139,7 @@ class Interp:
         self.strict_undef = True
         self.pending_ctors = []
         self.live_exceptions = {}
+        self.rw = None; self.rw_atomic = None
         self.poly_mode = False; self.polytab = {}; self.polyvars = []; self.polycache = {}; self.poly_residue = 0
         from . import models
         models.install(self)
@@ -227,6 +228,7 @@ class Interp:
 
     def load(self, addr, size, kind):
         r, off = self.region_of(addr, size, 'load')
+        if self.rw is not None: self.rw(self, r, off, size, 0)
         if r.kind == 'func':
             raise MemoryError_('invalid-pointer', 'load from function address', self.where())
         c = r.cells.get(off)
@@ -310,6 +312,7 @@ class Interp:
 
     def store(self, addr, size, v):
         r, off = self.region_of(addr, size, 'store')
+        if self.rw is not None: self.rw(self, r, off, size, 1)
         if r.const:
             raise MemoryError_('write-to-constant', 'store to constant %s' % r.name, self.where())
         if type(v) is PInt:
@@ -351,6 +354,8 @@ class Interp:
         if n == 0: return
         rs, so = self.region_of(src, n, 'memcpy-read')
         rd, do = self.region_of(dst, n, 'memcpy-write')
+        if self.rw is not None:
+            self.rw(self, rs, so, n, 0); self.rw(self, rd, do, n, 1)
         if rd.const:
             raise MemoryError_('write-to-constant', 'memcpy to constant %s' % rd.name, self.where())
         # collect source cells fully inside [so, so+n)
@@ -382,6 +387,7 @@ class Interp:
     def memset(self, dst, val, n):
         if n == 0: return
         r, off = self.region_of(dst, n, 'memset')
+        if self.rw is not None: self.rw(self, r, off, n, 1)
         self._clear_range(r, off, n)
         cells = r.cells
         val &= 0xFF
@@ -425,6 +431,7 @@ class Interp:
             raise MemoryError_('invalid-free', '%s of pointer into %s region %s at offset %d' % (what, r.kind, r.name, off), self.where())
         if size is not None and size != r.size:
             raise MemoryError_('sized-delete-mismatch', 'sized delete of %d bytes for an allocation of %d bytes (%s)' % (size, r.size, r.name), self.where())
+        if self.rw is not None: self.rw(self, r, 0, r.size, 1)
         r.live = False
         r.cells = None
 
@@ -1542,7 +1549,7 @@ class Interp:
                 r.cells = None
 
     def note_atomic(self, addr, size):
-        pass
+        if self.rw_atomic is not None: self.rw_atomic(self, addr, size)
 
     def values_equal(self, a, b):
         if type(a) is int and type(b) is int: return a == b
